@@ -1,2 +1,108 @@
-(* C08 - placeholder while the proofs are in progress *)
+(* C08 - SWHID text round trip.  Property theorems only: each is closed by
+   `exact` of a lemma of proofs/SwhidProofs.v / SwhidLangProofs.v, with
+   Print Assumptions beneath it.
+
+   Model: coq/model/Swhid.v (print_core / print_q = __str__, parse_* =
+   from_string, over lib/Utf8.v and lib/Percent.v).  [lim] is the
+   interpreter's int<->str digit limit (sys.get_int_max_str_digits(); 0 = no
+   limit); every theorem holds for every value of it. *)
+From Coq Require Import List NArith ZArith.
+From SWH.lib Require Import Bytes Dec Hex Utf8 Percent.
+From SWH Require Import Generated.
 From SWH.model Require Import Swhid.
+From SWH.proofs Require Import SwhidTables SwhidLib PercentProofs SwhidProofs SwhidLangProofs.
+Import ListNotations.
+Open Scope N_scope.
+
+(* Every core SWHID value (type among SWHID_TYPES, 20 bytes) is returned by
+   parsing its text. *)
+Theorem C08_core_roundtrip : forall c : core,
+  In (c_ty c) SWHID_TYPES -> length (c_oid c) = 20%nat -> wf_bytes (c_oid c) = true ->
+  parse_core (print_core c) = Ok c.
+Proof. intros c H1 H2 H3. apply core_roundtrip. repeat split; assumption. Qed.
+Print Assumptions C08_core_roundtrip.
+
+(* The same for extended SWHIDs (types incl. ori, emd). *)
+Theorem C08_ext_roundtrip : forall c : core,
+  In (c_ty c) EXTENDED_SWHID_TYPES -> length (c_oid c) = 20%nat -> wf_bytes (c_oid c) = true ->
+  parse_ext (print_core c) = Ok c.
+Proof. intros c H1 H2 H3. apply ext_roundtrip. repeat split; assumption. Qed.
+Print Assumptions C08_ext_roundtrip.
+
+(* Every qualified SWHID value - any subset of the five qualifiers, ARBITRARY
+   origin text (';', '%', '%3B', '=', non-ASCII, lone surrogates and, since
+   the printer escapes it, whitespace too), ARBITRARY path bytes, visit a
+   snapshot, anchor a dir/rev/rel/snp, line numbers non-negative with at most
+   lim digits - can be printed (no exception, the assertion in qualifiers()
+   holds) and parsing the text returns the value.  [wf_q] is exactly that
+   list of conditions (proofs/SwhidProofs.v). *)
+Theorem C08_qualified_roundtrip : forall (lim : N) (v : qualified), wf_q lim v ->
+  exists s, print_q lim v = Ok s /\ parse_q lim s = Ok v.
+Proof. exact qualified_roundtrip. Qed.
+Print Assumptions C08_qualified_roundtrip.
+
+(* The printed text belongs to the documented language (the recogniser lang_q
+   written from the BNF, the one C09 is stated against). *)
+Theorem C08_grammar : forall (lim : N) (v : qualified), wf_q lim v ->
+  exists s, print_q lim v = Ok s /\ lang_q s = true.
+Proof. exact printed_in_language. Qed.
+Print Assumptions C08_grammar.
+
+(* Shape of the printed text: the core identifier with lower-case hex id, then
+   the present qualifiers in the fixed order origin, visit, anchor, path,
+   lines; the origin and path texts contain no ';' and no whitespace, and
+   every '%' in them starts a two-hex-digit escape. *)
+Theorem C08_grammar_shape : forall (lim : N) (v : qualified) (s : text), wf_q lim v -> print_q lim v = Ok s ->
+  exists eo ep el,
+    s = print_core (core_of v)
+        ++ opt_item K_origin eo ++ opt_item K_visit (option_map print_core (q_visit v))
+        ++ opt_item K_anchor (option_map print_core (q_anchor v)) ++ opt_item K_path ep ++ opt_item K_lines el /\
+    print_core (core_of v) = S_swh1 ++ q_ty v ++ [58] ++ hexlify (q_oid v) /\
+    forallb is_lower_hex (hexlify (q_oid v)) = true /\
+    (forall t, eo = Some t -> well_escaped t = true /\ exists o, q_origin v = Some o /\ unquote t = o) /\
+    (forall t, ep = Some t -> well_escaped t = true /\ exists p, q_path v = Some p /\ unquote_to_bytes t = Some p) /\
+    (eo = None <-> q_origin v = None) /\ (ep = None <-> q_path v = None) /\ (el = None <-> q_lines v = None).
+Proof. exact printed_shape. Qed.
+Print Assumptions C08_grammar_shape.
+
+(* Converting a core SWHID to its extended or qualified form changes neither
+   the text nor the id. *)
+Theorem C08_conversions : forall c : core, wf_core c ->
+  to_extended c = Ok c /\
+  exists q, to_qualified c = Ok q /\ q_oid q = c_oid c /\ q_ty q = c_ty c /\
+            forall lim, print_q lim q = Ok (print_core c).
+Proof. exact conversions. Qed.
+Print Assumptions C08_conversions.
+
+(* KNOWN FINDING int-max-str-digits: without the digit hypothesis the round
+   trip fails - with the limit at 3 digits the value with line number 1000
+   cannot be printed (ValueError), with the limit at 4 it round-trips.  On
+   the real interpreter: limit 4300, line number 10^4300. *)
+Theorem C08_huge_line_refuted :
+  In (q_ty huge_line_witness) SWHID_TYPES /\ length (q_oid huge_line_witness) = 20%nat /\
+  print_q 3 huge_line_witness = Err EValue /\
+  exists s, print_q 4 huge_line_witness = Ok s /\ parse_q 4 s = Ok huge_line_witness.
+Proof. exact huge_line_refuted. Qed.
+Print Assumptions C08_huge_line_refuted.
+
+(* Side conditions on the tables read from /repo that the proofs use. *)
+Theorem C08_tables :
+  re_head = S_swh1 /\ EXTENDED_SWHID_TYPES = DOC_EXT_TYPES /\ SWHID_TYPES = DOC_CORE_TYPES /\
+  same_set_b (enum_values OBJECT_TYPES) DOC_CORE_TYPES = true /\
+  same_set_b (enum_values EXTENDED_OBJECT_TYPES) DOC_EXT_TYPES = true /\
+  TY_SNAPSHOT = S_snp /\ ANCHOR_TYPES = DOC_ANCHOR_TYPES /\
+  same_set_b SWHID_QUALIFIERS DOC_KEYS = true /\ QUALIFIER_PRINT_ORDER = FIELD_KEYS /\
+  SWHID_SEP = [58] /\ SWHID_CTXT_SEP = [59].
+Proof.
+  repeat split; first [exact tbl_head | exact tbl_ext_types | exact tbl_core_types | exact tbl_core_enum
+    | exact tbl_ext_enum | exact tbl_snapshot | exact tbl_anchor_types | exact tbl_qualifiers
+    | exact tbl_print_order | exact (proj1 tbl_seps) | exact (proj2 tbl_seps)].
+Qed.
+Print Assumptions C08_tables.
+
+(* Non-vacuity: a value with all five qualifiers, an origin with ';' '%' and a
+   space, a path with NUL, 0xFF and ';' meets wf_q; Swhid.v's Examples
+   print_ex / parse_ex show its text. *)
+Theorem C08_satisfiable : wf_q 4300 ex_q /\ wf_core (mkCore S_dir ex_oid) /\ wf_ext (mkCore S_ori ex_oid).
+Proof. exact wf_q_satisfiable. Qed.
+Print Assumptions C08_satisfiable.
